@@ -123,7 +123,8 @@ class Tracer:
 OPS_ALL = list(range(0x4f, 0xba)) + [0xba, 0xfa, 0xfb, 0xfc, 0xfd, 0xfe, 0xff]
 PUSHES = [b"\x00", b"\x01\x01", b"\x01\x00", b"\x01\x80", b"\x01\x05", b"\x04\xff\xff\xff\x7f", b"\x05\x00\x00\x00\x80\x00",
           b"\x4d\x08\x02" + b"\x01" * 520, b"\x4d\x09\x02" + b"\x01" * 521, b"\x4c\x01\x07", b"\x02\x01", b"\x4e\x01\x00\x00",
-          b"\x02\x00\x80", b"\x03\x00\x00\x80", b"\x05\x00\x00\x00\x00\x80", b"\x02\x80\x00", b"\x02\x00\x81"]
+          b"\x02\x00\x80", b"\x03\x00\x00\x80", b"\x05\x00\x00\x00\x00\x80", b"\x02\x80\x00", b"\x02\x00\x81",
+          b"\x05\x01\x00\x00\x00\x00", b"\x46" + b"\x02" + bytes(69)]
 STACKS = [[], [b"\x01"], [b""], [b"\x01", b"\x02"], [b"\x02", b"\x01", b"\x80"], [b"\x01", b"\x00\x80"], [b"\x00\x00\x00\x80"],
           [b"\x05", b"\x06", b"\x07", b"\x08", b"\x09", b"\x0a"], [b"\xff\xff\xff\x7f", b"\x01"], [b"\x00\x00\x00\x80\x00", b"\x01"]]
 
@@ -179,6 +180,12 @@ def limit_family():
         pv = bytes([len(v)]) + v
         for tail in (b"\x63\x51\x67\x52\x68", b"\x64\x51\x67\x52\x68", b"\x73", b"\x69", b"\x91", b"\x92", b"\x9a", b"\x9b", b""):
             out.append((pv + tail, [], ()))
+    # numeric operands of every width: more than 4 bytes is an error whatever the value
+    for v in (b"\x01\x00\x00\x00\x00", b"\x00\x00\x00\x00\x80", b"\x00" * 5, b"\x00" * 9, b"\x01\x00\x00\x00", b"\x00\x00\x00\x80", b"\xff\xff\xff\xff\x00"):
+        pv = bytes([len(v)]) + v
+        for tail in (b"\x8b", b"\x8c", b"\x8f", b"\x90", b"\x91", b"\x92", b"\x51\x93", b"\x51\x94", b"\x51\x9a", b"\x51\x9c", b"\x51\x9f",
+                     b"\x51\xa3", b"\x51\x52\xa5", b"\x79", b"\x7a", b"\xae"):
+            out.append((b"\x51\x52" + pv + tail, [], ()))
     for k in (0, 1, 2, 3):
         out.append((bytes([0x50 + k]) if k else b"\x00") if False else (b"\x11\x12\x13\x14" + (bytes([0x50 + k]) if k else b"\x00") + b"\x79", [], ()))
         out.append((b"\x01\x11\x01\x12\x01\x13" + (bytes([0x50 + k]) if k else b"\x00") + b"\x7a", [], ()))
@@ -243,7 +250,7 @@ def key_material(r):
 
 def sig_programs(r, n):
     """real signatures: (scriptSig, scriptPubKey, flags, txd, idx)"""
-    from bitcoin.core.script import CScript, SignatureHash, OP_CHECKSIG, OP_CHECKSIGVERIFY, OP_CHECKMULTISIG, OP_DUP, \
+    from bitcoin.core.script import CScript, CScriptOp, SignatureHash, OP_CHECKSIG, OP_CHECKSIGVERIFY, OP_CHECKMULTISIG, OP_DUP, \
         OP_HASH160, OP_EQUALVERIFY, OP_CODESEPARATOR, OP_EQUAL
     from bitcoin.core import Hash160
     ks = key_material(r)
@@ -275,14 +282,28 @@ def sig_programs(r, n):
             spk = CScript([OP_CODESEPARATOR, k.pub, OP_CHECKSIG])
             sig = k.sign(SignatureHash(spk, tx, idx, ht)) + bytes([ht])
             out.append((bytes(CScript([sig])), bytes(spk), (), d, idx))
-            spk2 = CScript([1, OP_CODESEPARATOR, 0x75, k.pub, OP_CHECKSIG])
-            sig2 = k.sign(SignatureHash(CScript([0x75, k.pub, OP_CHECKSIG]), tx, idx, ht)) + bytes([ht])
+            spk2 = CScript([1, OP_CODESEPARATOR, CScriptOp(0x75), k.pub, OP_CHECKSIG])
+            sig2 = k.sign(SignatureHash(CScript([CScriptOp(0x75), k.pub, OP_CHECKSIG]), tx, idx, ht)) + bytes([ht])
             out.append((bytes(CScript([sig2])), bytes(spk2), (), d, idx))
+        if kind in (1, 3):   # two signature checks in one script; one signature met again under different script code
+            inner1 = CScript([k.pub, OP_CHECKSIG])
+            sA = k.sign(SignatureHash(inner1, tx, idx, ht)) + bytes([ht])
+            out.append((bytes(CScript([sA])), bytes(inner1), (), d, idx))                         # verifies
+            out.append((bytes(CScript([sA])), bytes(CScript([CScriptOp(0x61), k.pub, OP_CHECKSIG])), (), d, idx))   # same signature, other code: must fail
+            out.append((bytes(CScript([sA])), bytes(CScript([CScriptOp(0x76), k.pub, OP_CHECKSIGVERIFY, OP_CODESEPARATOR, k.pub, OP_CHECKSIG])), (), d, idx))
+            # <sig1> <pk> CHECKSIGVERIFY <pk> CHECKSIG with sig1 inside the script (FindAndDelete removes it for the first check only)
+            tail = CScript([k.pub, OP_CHECKSIGVERIFY, k.pub, OP_CHECKSIG])
+            s1 = k.sign(SignatureHash(tail, tx, idx, ht)) + bytes([ht])
+            full = CScript(bytes(CScript([s1])) + bytes(tail))      # (CScript + CScript would push the second as data)
+            s2 = k.sign(SignatureHash(full, tx, idx, ht)) + bytes([ht])
+            out.append((bytes(CScript([s2])), bytes(full), (), d, idx))
+            s2b = k.sign(SignatureHash(tail, tx, idx, ht)) + bytes([ht])
+            out.append((bytes(CScript([s2b])), bytes(full), (), d, idx))
         if kind in (0, 2):   # a malformed key checked after a good one, and one signature presented twice
             spk0 = CScript([k.pub, OP_CHECKSIG])
-            sig0 = k.sign(SignatureHash(CScript([0x76, k.pub, OP_CHECKSIGVERIFY, b"\x02" + bytes(31), OP_CHECKSIG]), tx, idx, ht)) + bytes([ht])
+            sig0 = k.sign(SignatureHash(CScript([CScriptOp(0x76), k.pub, OP_CHECKSIGVERIFY, b"\x02" + bytes(31), OP_CHECKSIG]), tx, idx, ht)) + bytes([ht])
             for bad in (b"\x02" + bytes(31), b"", k.pub[:-1], b"\x05" + k.pub[1:], k.pub + b"\x00"):
-                spk_b = CScript([0x76, k.pub, OP_CHECKSIGVERIFY, bad, OP_CHECKSIG])
+                spk_b = CScript([CScriptOp(0x76), k.pub, OP_CHECKSIGVERIFY, bad, OP_CHECKSIG])
                 sig_b = k.sign(SignatureHash(spk_b, tx, idx, ht)) + bytes([ht])
                 out.append((bytes(CScript([sig_b])), bytes(spk_b), (), d, idx))
                 out.append((bytes(CScript([sig_b])), bytes(CScript([bad, OP_CHECKSIG])), (), d, idx))      # straight after a good check
@@ -368,7 +389,7 @@ def drive(tier):
     from bitcoin.core import Hash160
     redeems = [b"\x51", b"\x00", b"\x51\x51", b"\x52\x87", b"\x61", b"\xb1", b"\x75\x51", b"\x6a", b"\x4c"]
     for red in redeems:
-        spk = bytes(CScript([0xa9, Hash160(red), 0x87]))
+        spk = b"\xa9\x14" + Hash160(red) + b"\x87"
         for sig in (bytes(CScript([red])), bytes(CScript([1, red])), bytes(CScript([2, red])), b"\x51\x61" + bytes(CScript([red])),
                     bytes(CScript([red]))[:-1], b""):
             for fl in (FLAGSETS if tier == "thorough" else [FLAGSETS[i] for i in (0, 1, 5, 7, 11)]):
